@@ -160,9 +160,9 @@ class C17(Prop):
         ("F", "init_cache_but_one for every left-out node, and for update_path[0]: as unordered pairs the key list is a permutation of the "
               "edge list (exactly one block per edge); every block (n, m) has m = second node of the path n -> left-out; every block is "
               "created after the blocks of the other neighbours it is contracted from (C17_cache_keys_spec, C17_tdvp_cache_keys_spec)"),
-        ("I", "BOUNDED, not universal: walking the update path along tree paths crosses no edge more than twice — kernel-evaluated "
-              "(vm_compute) over the enumeration of all 23714 rooted ordered trees with <= 11 nodes, which is proved to contain every tree "
-              "shape up to the bound (C17_update_path_crossings_bounded_11, C17_enumeration_complete); the inductive proof is open"),
+        ("F", "walking the update path along tree paths crosses no edge more than twice, for every tree: every proper subtree is one contiguous "
+              "block of the update path (C17_update_path_crossings, C17_update_path_subtree_block, C17_update_path_jumps); the bounded companion over "
+              "all 23714 trees with <= 11 nodes is kept (C17_update_path_crossings_bounded_11, C17_enumeration_complete)"),
         ("V", "exact equality of every modelled query with the implementation on all rooted ordered trees up to the node bound, all node "
               "pairs and centres (lists, dict key orders, update path, caching path, next-id dict, cache key order), plus random trees up "
               "to 40 nodes; independent BFS oracle on the undirected graph; real SandwichCache contraction on TTNS+TTNO"),
